@@ -17,4 +17,5 @@ INVARIANT DeMorganInvariant
 INVARIANT QuantifierInvariant
 INVARIANT SetwisePermutationInvariant
 INVARIANT DictSplitInvariant
+INVARIANT UnitInvariant
 CHECK_DEADLOCK FALSE
